@@ -504,6 +504,83 @@ func runC19(c *Ctx) {
 
 	// ================= R6: scroll distance and fill geometry of the framebuffer console =================
 	c.floor("C19.R6", 5)
+	// the size of the cell grid and of the framebuffer slice
+	{
+		zg := &Polyizer{Atom: func(v ssa.Value) string {
+			if _, f, ok := loadedField(v); ok && isIntegral(f.Type()) {
+				return f.Name()
+			}
+			return ""
+		}}
+		quotOf := func(v ssa.Value) (num Poly, den Poly, ok bool) {
+			b, isB := stripConv(v).(*ssa.BinOp)
+			if !isB || b.Op != token.QUO {
+				return nil, nil, false
+			}
+			return zg.Of(b.X), zg.Of(b.Y), true
+		}
+		for _, spec := range []struct {
+			f        *types.Var
+			num, den Poly
+			what     string
+		}{
+			{wChars, polyAtom("width"), polyAtom("GlyphWidth"), "width / GlyphWidth (pixels, not bytes of a row)"},
+			{hChars, polyAtom("height").add(polyAtom("offsetY"), -1), polyAtom("GlyphHeight"), "(height - offsetY) / GlyphHeight"},
+		} {
+			bad := ""
+			var where []string
+			n := 0
+			for _, fs := range m.storesToField(spec.f) {
+				if fs.Rest != "" {
+					continue
+				}
+				n++
+				num, den, ok := quotOf(fs.Store.Val)
+				if !ok || !num.equal(spec.num) || !den.equal(spec.den) {
+					bad = spec.f.Name() + " is set to " + describe(fs.Store.Val) + ", expected " + spec.what + ": cells outside the picture (or in the row padding) become addressable"
+					where = append(where, m.pos(fs.Store.Pos()))
+				}
+			}
+			if n == 0 {
+				bad = spec.f.Name() + " is never set"
+			}
+			c.check(bad == "", "C19.R6", "grid-size VesaFbConsole."+spec.f.Name(), spec.f.Name()+" = "+spec.what, bad, where...)
+		}
+		// the framebuffer slice covers height*pitch bytes, no more
+		bad := ""
+		var where []string
+		nlen := 0
+		for _, fs := range m.storesToField(vesaFb) {
+			if fs.Rest != "" {
+				continue
+			}
+			for _, b := range m.blocksOf(fs.Fn) {
+				for _, in := range b.Instrs {
+					st, ok := in.(*ssa.Store)
+					if !ok {
+						continue
+					}
+					fa, ok := st.Addr.(*ssa.FieldAddr)
+					if !ok {
+						continue
+					}
+					pt, ok := fa.X.Type().Underlying().(*types.Pointer)
+					if !ok || !strings.HasSuffix(pt.Elem().String(), "reflect.SliceHeader") || (fa.Field != 1 && fa.Field != 2) {
+						continue
+					}
+					nlen++
+					if got := zg.Of(st.Val); !got.equal(polyAtom("height").mul(polyAtom("pitch"))) {
+						bad = "the framebuffer slice is given length/capacity " + got.String() + ", expected height*pitch: scrolling and palette changes run to len(fb) and would touch memory behind the picture"
+						where = append(where, m.pos(st.Pos()))
+					}
+				}
+			}
+		}
+		if nlen == 0 {
+			bad = "no length is set for the framebuffer slice (rule shape lost)"
+		}
+		c.check(bad == "", "C19.R6", "fb-length VesaFbConsole.fb", "len(fb) = cap(fb) = height*pitch", bad, where...)
+	}
 	for _, pn := range []string{"fill8", "fill16", "fill24"} {
 		c19PainterGeometry(c, m, painters[pn], painters["fbOffset"], vesaFb, pitchF, bytesPP, pn != "fill8")
 	}
